@@ -1,6 +1,6 @@
 #!/bin/bash
 # seedmatrix.sh [budget_s] -- re-run the detection matrix: every seeded change under /verif/seeded is applied to a
-# scratch worktree of /repo (never to /repo itself), the check of the property it breaks runs against that worktree
+# scratch worktree of /repo (never to /repo itself; SEEDS=<regex> selects a subset), the check of the property it breaks runs against that worktree
 # (VERIF_REPO), and the change is reverted.  Prints one line per change; exit 0 iff every change is caught.
 budget=${1:-40}
 cd "$(dirname "$0")/.."
@@ -11,6 +11,7 @@ mkdir -p $wt/_evidence $wt/_replays $wt/_build
 missed=0
 for d in seeded/*/; do
   id=$(basename $d)
+  if [ -n "$SEEDS" ] && ! echo "$id" | grep -Eq "$SEEDS"; then continue; fi
   prop=$(python3 -c "import json,sys; print(json.load(open('$d/meta.json'))['breaks_property'].split()[0])")
   ( cd $wt && git apply "$OLDPWD/$d/patch.diff" ) || { echo "$id: patch does not apply"; missed=$((missed+1)); continue; }
   out=$(VERIF_REPO=$wt VERIF_BUDGET_S=$budget VERIF_EVIDENCE_DIR=$wt/_evidence VERIF_REPLAYS_DIR=$wt/_replays VERIF_BUILD_DIR=$wt/_build python3 driver/check.py --property $prop --tier quick 2>&1)
